@@ -321,7 +321,7 @@ theorem tgtKeys_declared (ss : List Stmt) (hacc : accepted ss = true) (a : Assoc
   simp only [Bool.and_eq_true, List.all_eq_true, List.contains_iff_mem] at this
   intro tk htk
   rw [← attrNames_eq]
-  exact this.2 tk htk
+  exact this.1.2 tk htk
 
 /-- the loader's rows for schema + INSERTs, from the basic guards only -/
 theorem loaded_rows' (ss : List Stmt) (order : List (String × List Val))
@@ -1006,7 +1006,7 @@ theorem kind_declared_of_accepted (ss : List Stmt) (hacc : accepted ss = true) (
   simp only [Bool.and_eq_true, List.all_eq_true] at hacc
   have := hacc.2 _ hs
   simp only [Bool.and_eq_true, List.contains_iff_mem] at this
-  exact ⟨this.1.1, this.1.2⟩
+  exact ⟨this.1.1.1, this.1.1.2⟩
 
 /-- the guards `readsTerminate` and `resolved` for a schema without chained keys (every identifying attribute used
     as a key is stored, none is referential in its own class): reads end after at most two steps -/
